@@ -45,6 +45,19 @@ def extract():
     rc, out = run([PY, os.path.join(VERIF, "tools", "extract.py")], env={"TELINGO_REPO": REPO})
     return rc == 0, out.strip()
 
+def import_closure(module):
+    """the Lean modules of this project that `module` imports, transitively"""
+    seen, todo = set(), [module]
+    while todo:
+        m = todo.pop()
+        if m in seen:
+            continue
+        seen.add(m)
+        f = os.path.join(LEAN_DIR, m.replace(".", "/") + ".lean")
+        if os.path.exists(f):
+            todo += [x for x in re.findall(r"^import\s+(\S+)", open(f).read(), re.M) if x.startswith("Tel")]
+    return seen
+
 def lake_build(targets):
     rc, out = run(["lake", "build"] + list(targets), cwd=LEAN_DIR, timeout=3000)
     errs = [l for l in out.split("\n") if l.startswith("error:") or "✖" in l]
@@ -122,7 +135,15 @@ def proof_stage(pid, prop_module, extra_modules=(), thorough=False):
         ok, msg = extract()
         res["log"].append(msg)
         if not ok:
-            res["broken"].append(("extraction", msg))
+            # every generated file is extracted on its own; a file that could not be regenerated keeps its previous content.
+            # That breaks an obligation of this property only if its theorems (transitively) import that file.
+            failed = re.findall(r"EXTRACT-ERROR (\w+)\.lean:", msg)
+            deps = import_closure(prop_module)
+            hit = [f for f in failed if "TelModel.Generated." + f in deps]
+            if hit or not failed:
+                res["broken"].append(("extraction", msg))
+            else:
+                res["log"].append("not imported by {}: {}".format(prop_module, ", ".join(failed)))
         ok_spec, errs, _ = lake_build(["telspec"])
         res["exes"]["telspec"] = ok_spec
         if not ok_spec:
